@@ -67,6 +67,14 @@ func NewHome(base string) *Home {
 	return h
 }
 
+// NewHomeNamed: the same with a chosen name for the home directory (login names contain dots, blanks, umlauts).
+func NewHomeNamed(base, name string) *Home {
+	h := &Home{Dir: filepath.Join(base, name), Cwd: filepath.Join(base, "cwd")}
+	os.MkdirAll(h.Dir, 0o755)
+	os.MkdirAll(h.Cwd, 0o755)
+	return h
+}
+
 func (h *Home) Personal() string {
 	return filepath.Join(h.Dir, ".config", "cmd-finder", "personal.yml")
 }
